@@ -13,6 +13,9 @@ RULE = ("source files = TdmsSegments behaviours over root, a declared and an imp
 
 CONFIGS = {
     "quick": [("MC_C10", "MC_C10.cfg", {"MaxSegs": 2, "ObjLists": "c_ObjListsQ", "KVals": "{1}", "NVals": "{2}"}, 4),
+              # timestamps (and, rotated, complex doubles) fragmented over segments and chunks
+              ("MC_C10", "MC_C10.cfg", {"MaxSegs": 2, "ObjLists": "c_ObjListsQ", "KVals": "{1, 2}", "NVals": "{2}",
+                                        "TypeSet": "c_TypeSetBig", "MaxPropObjs": 0}, 2),
               # a channel larger than any internal block size (1 MiB), copied to a stream and to a path
               ("MC_C10", "MC_C10.cfg", {"MaxSegs": 1, "ObjLists": "c_ObjListsBig", "KVals": "{1}", "NVals": "{80001}",
                                         "TypeSet": "c_TypeSetBig", "MaxPropObjs": 0}, 2)],
